@@ -8,7 +8,7 @@ import itertools, pickle, random
 import numpy as np
 import thermosteam as tmo
 from thermosteam.exceptions import UndefinedChemicalAlias, UndefinedPhase
-from vt.core import case_hash
+from vt.core import case_hash, exc_key
 from vt.common import sparse_invariant
 
 PID = 'C10'
@@ -26,10 +26,17 @@ RULE = ('chemical sets of 1-8 (pool of 16) with 2 user aliases per chemical and 
         'key (mostly containing a contested name) is read or written through every set in random order via MultiStream.imol[phase, key] / [key] / [..., key], imass, a second MultiStream on another '
         'phase set, Stream.imol / imass, a brand-new MolarFlowIndexer.from_data, isplit, get_index, and the primary flows re-based onto the sibling (indexer.reset_chemicals, Stream.copy(thermo=)); every set '
         'is judged against its own tables; keys undefined in a set are documented refusals. Added (regroup): a group name defined again with other members while the caches hold it, read / written, then restored. '
+        'Strengthened oracles: a key that a sibling set does not define must raise UndefinedChemicalAlias there (an answer, or another exception, is a violation: sibling-set/<set>/<access>/undefined-accepted | '
+        'undefined-wrong-exception); undefined names / phases inside a history must raise the documented exception of their key form (bad-key/accepted/<form>, bad-key/wrong-exception/<form>); the read operations '
+        'ivol[key], get_flow, get_data must leave the flow data bit-identical (<clause>/<op>/source-untouched) and the model is never brought in line with what a read left behind; a scalar volumetric write to a group key '
+        'must be refused with the documented AttributeError (vol/group-write-accepted/<kind>/<form>) and must not touch entries outside the key; the two aliases Setup defines per chemical are part of the vocabulary from the '
+        "harness's own list and are asserted right after every compile (names-one-position/setup-alias/<set>). "
         'non-trivial = key addresses >=2 positions or a group, data has >=2 non-zero entries; distinct = hash of (set, key form, key)')
 MIN_NONTRIVIAL = {'quick': 2000, 'thorough': 50000}
 ASSUMPTIONS = ['names of a chemical are taken from the Chemical object (ID, CAS, aliases, formula, common_name, iupac_name) with the documented rule that a name claimed by two chemicals of the set is dropped',
-               'a lookup summed over phases cannot be written (documented IndexError) and is not judged']
+               'a lookup summed over phases cannot be written (documented IndexError) and is not judged',
+               'a name that a compiled set does not define (not an ID, CAS, alias, unambiguous formula / common / IUPAC name or group of that set) is documented to raise UndefinedChemicalAlias, a single letter that is no phase of the indexer UndefinedPhase',
+               'a scalar volumetric flow written to a group is a documented refusal (AttributeError: cannot set groups by volumetric flow); whether the plain chemicals of a nested key listed before the group were already written when it is raised is not judged']
 POOL = ('Water', 'Ethanol', 'Methanol', 'Propanol', 'Butanol', 'Glycerol', 'Octane', 'Hexane', 'CO2', 'N2', 'O2', 'AceticAcid', 'Acetone', 'Glucose', 'Benzene', 'Toluene')
 
 
@@ -39,7 +46,11 @@ def required(tier):
             'write:zero-to-group', 'write:Mmass', 'vol', 'vol:write', 'unit-access', 'late-alias', 'late-group', 'alias-clash', 'read:overlap', 'entry-points', 'bad-key', 'bad-key:then-read',
             'single-phase-multistream', 'size-1-set-with-group',
             'sibling', 'sibling:recompiled', 'sibling:copied', 'sibling:pickled', 'sibling:permuted', 'sibling:extended', 'sibling:primary', 'sibling:contested-group', 'sibling:contested-alias',
-            'sibling:write', 'sibling:other-phase-set', 'sibling:raw-indexer', 'sibling:rebased', 'sibling:undefined-here', 'regroup']
+            'sibling:write', 'sibling:other-phase-set', 'sibling:raw-indexer', 'sibling:rebased', 'sibling:undefined-here', 'regroup',
+            # strengthened oracles: undefined keys judged per form, reads that must leave their source untouched, the volumetric group write refusal, the aliases of Setup
+            'sibling:undefined-here:M-phase', 'sibling:undefined-here:M-sum', 'sibling:undefined-here:S', 'sibling:undefined-here:raw', 'sibling:undefined-here:split', 'sibling:undefined-here:get_index',
+            'flows:read-source-untouched', 'vol:group-write-refused', 'vol:group-write-refused:group', 'vol:group-write-refused:nested',
+            'setup-alias:primary', 'setup-alias:twin', 'setup-alias:recompiled', 'setup-alias:extended'] + ['bad-key:' + f_ for f_ in BAD_KEY_FORMS]
 
 
 class Setup:
@@ -52,11 +63,14 @@ class Setup:
         self.chems = chems
         self.thermo = tmo.Thermo(chems)
         self.ids = list(ids)
+        # the two aliases given above, from the harness's own list (not read back from the alias table that set_alias maintains): they are part of the
+        # vocabulary whatever set_alias did, so a set_alias that silently does nothing is seen by every oracle that uses a name
+        self.own_aliases = {i: (i + '_a1', 'x_' + i.lower()) for i in ids}
         # names -> position, from the chemical objects only
         cand = []
         for p, c in enumerate(chems):
             names = {c.ID, c.CAS}
-            extra = set(c.aliases) | {c.common_name, c.formula} | set(c.iupac_name if isinstance(c.iupac_name, (tuple, list)) else [c.iupac_name])
+            extra = set(c.aliases) | {c.common_name, c.formula} | set(c.iupac_name if isinstance(c.iupac_name, (tuple, list)) else [c.iupac_name]) | set(self.own_aliases[ids[p]])
             cand.append((names, {n for n in extra if n}))
         counts = {}
         for names, extra in cand:
@@ -80,6 +94,18 @@ class Setup:
             if g.get('wt', False): wt = c; mol = c / MW[idx]
             else: wt = c * MW[idx]; mol = c
             self.groups[g['name']] = {'idx': idx, 'mol': mol / mol.sum(), 'wt': wt / wt.sum()}
+
+    def check_own_aliases(self, rec, kind):
+        """(strengthened) the aliases Setup defined resolve to the position of their chemical - asserted from the harness's own list, through chemicals.index (a plain
+        table lookup: it neither reads nor fills a lookup cache, so the 'never looked up before' state of a new set is kept)."""
+        for p, i in enumerate(self.ids):
+            for al in self.own_aliases[i]:
+                try: a = self.chems.index(al)
+                except UndefinedChemicalAlias: a = None
+                except Exception as e:
+                    rec.exception('names-one-position', e, what=f'chemicals.index({al!r}) (alias of {i} defined right after compiling the {kind} set) raised {type(e).__name__}: {str(e)[:120]}'); continue
+                rec.check(a == p and self.pos.get(al) == p, 'names-one-position', f'setup-alias/{kind}', f'alias {al!r} defined for {i!r} (position {p}) right after compiling the {kind} set resolves to {a!r}' + (' (UndefinedChemicalAlias)' if a is None else ''))
+        rec.hit('setup-alias'); rec.hit('setup-alias:' + kind)
 
     def add_alias(self, ID, alias):
         """define an alias now (caches may be warm) and record it in the positional model."""
@@ -166,6 +192,24 @@ def gen_key(rng, S, allow_groups=True, write=False):
         if p in used: continue
         key.append(rng.choice(S.names[p])); used.add(p)
     return key
+
+
+BAD_KEY_FORMS = ['S-name', 'S-tuple', 'M-name', 'M-phase-name', 'M-bad-phase', 'M-bad-phase-only', 'S-write', 'chemicals.index']
+# the documented refusal of every form of an undefined key: an undefined name is UndefinedChemicalAlias; a single letter that is no phase of the indexer is
+# UndefinedPhase (a bare single letter alone is first tried as a chemical name, so either is the documented answer there)
+BAD_KEY_DOCUMENTED = {f_: (UndefinedChemicalAlias,) for f_ in BAD_KEY_FORMS}
+BAD_KEY_DOCUMENTED['M-bad-phase'] = (UndefinedPhase,)          # the chemical part of the key is valid: only the phase is undefined
+BAD_KEY_DOCUMENTED['M-bad-phase-only'] = (UndefinedPhase, UndefinedChemicalAlias)
+
+
+def show(x):
+    """a value the library returned, for a witness text (never raises: the value may be ragged, a slice, a sparse vector ...)."""
+    try:
+        if hasattr(x, 'to_array'): x = x.to_array()
+        return repr(x.tolist() if isinstance(x, np.ndarray) else x)[:400]
+    except Exception:
+        try: return repr(x)[:400]
+        except Exception: return f'<{type(x).__name__}>'
 
 
 def dense_of(indexer):
@@ -346,12 +390,23 @@ def sibling_access(rec, rng, W, P, key, as_list, acc, write, vk, hint, setsig, t
         else: fk = k; shape = 'vector'
         if r is None:
             # the key is not defined in this set (it belongs to a sibling): the documented answer is UndefinedChemicalAlias, whatever was looked up elsewhere
+            # (strengthened: this is the observation point for positions leaking from one set into another through a shared / stale lookup table, so an answer
+            # without an error is a violation - the answer can only come from a lookup made elsewhere - and only UndefinedChemicalAlias counts as the refusal)
+            undefined = sorted({nm for nm in ([key] if isinstance(key, str) else key) if nm not in S_.groups and nm not in S_.pos})
+            op_ = 'get_index' if acc == 'get_index' else 'read'
             try:
-                if acc == 'get_index': S_.chems.get_index(k)
-                else: ix[fk]
-                rec.refuse('key of a sibling set that is undefined in this set was accepted without error (not judged)')
-            except UndefinedChemicalAlias: rec.refuse('key of a sibling set that is undefined in this set (UndefinedChemicalAlias; not judged)'); rec.hit('sibling:undefined-here')
-            except Exception as e: rec.refuse(f'key of a sibling set that is undefined in this set rejected through {type(e).__name__} (not judged)')
+                got = S_.chems.get_index(k) if acc == 'get_index' else ix[fk]
+            except UndefinedChemicalAlias:
+                rec.check(True, 'sibling-set', f'{W.kind}/{acc}/undefined-accepted', ''); rec.hit('sibling:undefined-here'); rec.hit('sibling:undefined-here:' + acc)
+            except Exception as e:
+                rec.check(False, 'sibling-set', f'{W.kind}/{acc}/undefined-wrong-exception',
+                          f'{acc} {op_} of {key!r} on the {W.kind} set, which does not define {undefined}, raised {type(e).__name__} ({str(e)[:120]}) instead of UndefinedChemicalAlias',
+                          detail={'key': key, 'undefined_here': undefined, 'set': list(S_.ids), 'groups': sorted(S_.groups), 'exception': f'{type(e).__name__}: {str(e)[:300]}', 'at': exc_key(e)})
+            else:
+                rec.check(False, 'sibling-set', f'{W.kind}/{acc}/undefined-accepted',
+                          f'{acc} {op_} of {key!r} on the {W.kind} set (chemicals {list(S_.ids)}, groups {sorted(S_.groups)}), which does not define {undefined}, was answered with {show(got)} '
+                          f'instead of UndefinedChemicalAlias: the answer can only come from a lookup made through another set',
+                          detail={'key': key, 'undefined_here': undefined, 'set': list(S_.ids), 'groups': sorted(S_.groups), 'returned': show(got)})
             return
         kk = key_kind(r)
 
@@ -435,6 +490,7 @@ def _run_case(case, rec, cleanup):
         S = Setup(ids, groups)
     except Exception as e:
         rec.exception('setup', e, what=f'compiling chemicals / aliases / groups raised {type(e).__name__}: {e}'); return
+    S.check_own_aliases(rec, 'primary')
     n = len(ids)
     phases = case['phases']
     st = tmo.Stream(None, thermo=S.thermo)
@@ -681,6 +737,7 @@ def _run_case(case, rec, cleanup):
         elif t == 'twin':
             # brand-new compiled chemicals and indexers that have seen no other key
             T = Setup(ids, groups)
+            T.check_own_aliases(rec, 'twin')
             for kind_, a_ in later:
                 if kind_ == 'alias': T.add_alias(*a_)
                 else: T.add_group(a_)
@@ -827,6 +884,9 @@ def _run_case(case, rec, cleanup):
                 form = 'ellipsis' if key == '...' else ('str' if isinstance(key, str) else ('list' if as_list else 'tuple'))
                 flat = lambda r: list(range(n)) if r[0] == 'all' else ([r[1]] if r[0] == 'scalar' else (r[1] if r[0] == 'group' else [j for i in r[1] for j in (i if isinstance(i, list) else [i])]))
                 hasgroup = r[0] == 'group' or (r[0] == 'array' and any(isinstance(i, list) for i in r[1]))
+                is_read = what in ('vol-read', 'mvol-read', 'get_flow', 'get_data')
+                pre1 = dense_of(st.imol); pre2 = dense_of(ms.imol)          # the data as it is before the operation (reads must leave it bit-identical)
+                judged_read = False
                 try:
                     if what in ('vol-read', 'vol-write', 'mvol-read'):
                         if any(Vl[i] is None for i in flat(r)): rec.refuse('no molar volume model for a chemical in this phase (volumetric key not judged)'); continue
@@ -834,7 +894,7 @@ def _run_case(case, rec, cleanup):
                     if what == 'vol-read':
                         got = st.ivol[k]; exp = model_read(S, np.where(D1 != 0, D1 * V, 0.0), key)
                         rec.check(same(got, exp, rel=1e-12), 'vol', f'read/{form}', f'ivol[{key!r}] = {np.asarray(got.to_array() if hasattr(got, "to_array") else got).tolist()} but positional model (mol * V) gives {np.asarray(exp).tolist()}')
-                        rec.hit('vol')
+                        rec.hit('vol'); judged_read = True
                     elif what == 'mvol-read':
                         ph = rng.choice(mphases)
                         try: Vp = np.array([1000. * c.V(ph.lower(), ms.T, ms.P) for c in S.chems], float)
@@ -843,13 +903,26 @@ def _run_case(case, rec, cleanup):
                         if not np.all(np.isfinite(Vp[flat(r)])): rec.refuse('no molar volume model for a chemical in this phase (volumetric key not judged)'); continue
                         got = ms.ivol[ph, k]; exp = model_read(S, np.where(row != 0, row * np.where(np.isfinite(Vp), Vp, 0.0), 0.0), key)
                         rec.check(same(got, exp, rel=1e-12), 'vol', f'multi-phase-read/{form}', f'ivol[{ph!r},{key!r}] = {np.asarray(got.to_array() if hasattr(got, "to_array") else got).tolist()} but positional model gives {np.asarray(exp).tolist()}')
-                        rec.hit('vol')
+                        rec.hit('vol'); judged_read = True
                     elif what == 'vol-write':
                         if hasgroup:
                             # documented refusal: a scalar cannot be distributed over a group by volume; per-member arrays are accepted
+                            # (strengthened) the refusal is granted only for this exception with this message; an accepted write is a violation (there is no
+                            # composition by volume to distribute the scalar with), and whatever happens the entries the key does not address stay as they were
+                            gk = 'group' if r[0] == 'group' else 'nested'
+                            others = [i for i in range(n) if i not in set(flat(r))]
                             try: st.ivol[k] = 0.5
-                            except AttributeError: rec.refuse('volumetric group write refused (cannot set groups by volumetric flow)')
-                            D1[:] = dense_of(st.imol); continue
+                            except AttributeError as e:
+                                if 'cannot set groups by volumetric flow' not in str(e): raise
+                                rec.refuse('volumetric group write refused (cannot set groups by volumetric flow)'); rec.hit('vol:group-write-refused'); rec.hit('vol:group-write-refused:' + gk)
+                                rec.check(True, 'vol', f'group-write-accepted/{gk}/{form}', '')
+                            else:
+                                rec.check(False, 'vol', f'group-write-accepted/{gk}/{form}', f'ivol[{key!r}] = 0.5 (a scalar volumetric flow written to a {gk} key) was accepted although a scalar cannot be distributed over a group by volume '
+                                          f'(documented: AttributeError cannot set groups by volumetric flow); molar data {pre1.tolist()} -> {dense_of(st.imol).tolist()}')
+                            now1 = dense_of(st.imol)
+                            rec.check(same(now1[others], pre1[others], rel=0) and same(dense_of(ms.imol), pre2, rel=0), 'vol', f'group-write/others-untouched/{gk}/{form}',
+                                      f'ivol[{key!r}] = 0.5 (scalar volumetric write to a {gk} key) changed entries the key does not address: positions {others} were {pre1[others].tolist()} and are {now1[others].tolist()}')
+                            D1[:] = now1; continue
                         pos = flat(r)
                         val = round(10 ** rng.uniform(-3, 1), 5) if r[0] == 'scalar' else [round(10 ** rng.uniform(-3, 1), 5) if rng.random() < 0.85 else 0.0 for _ in pos]
                         st.ivol[k] = val
@@ -863,7 +936,7 @@ def _run_case(case, rec, cleanup):
                         Dm = D1 if basis == 'mol' else D1 * S.chems.MW
                         got = st.get_flow(units, k); exp = model_read(S, Dm, key)
                         rec.check(same(got, np.asarray(exp) * f, rel=1e-12), 'unit-access', f'get_flow/{basis}/{form}', f'get_flow({units!r}, {key!r}) = {np.asarray(got.to_array() if hasattr(got, "to_array") else got).tolist()} but positional model gives {(np.asarray(exp) * f).tolist()}')
-                        rec.hit('unit-access')
+                        rec.hit('unit-access'); judged_read = True
                     elif what == 'get_data':
                         units, f = rng.choice([('kmol/hr', 1.0), ('mol/hr', 1000.0)])
                         if rng.random() < 0.5 or key == '...':
@@ -871,7 +944,7 @@ def _run_case(case, rec, cleanup):
                         else:
                             ph = rng.choice(mphases); got = ms.imol.get_data(units, ph, k); exp = model_read(S, D2[mphases.index(ph)], key)
                         rec.check(same(got, np.asarray(exp) * f, rel=1e-12), 'unit-access', f'get_data/{form}', f'get_data({units!r}, {key!r}) = {np.asarray(got.to_array() if hasattr(got, "to_array") else got).tolist()} but positional model gives {(np.asarray(exp) * f).tolist()}')
-                        rec.hit('unit-access')
+                        rec.hit('unit-access'); judged_read = True
                     else:
                         units, basis, f = rng.choice([('kmol/hr', 'mol', 1.0), ('mol/hr', 'mol', 1000.0), ('kg/hr', 'wt', 1.0), ('g/hr', 'wt', 1000.0)])
                         if what == 'set_data': basis = 'mol'; units, f = rng.choice([('kmol/hr', 1.0), ('mol/hr', 1000.0)])
@@ -897,7 +970,18 @@ def _run_case(case, rec, cleanup):
                 except Exception as e:
                     rec.exception('vol' if what.startswith(('vol', 'mvol')) else 'unit-access', e, what=f'{what} with key {key!r} raised {type(e).__name__}: {str(e)[:150]}')
                     D1[:] = dense_of(st.imol); D2[:] = dense_of(ms.imol)
-                D1[:] = dense_of(st.imol)          # judged to 1e-11 above; keep the model bit-identical to the data for the exact clauses that follow
+                if is_read:
+                    # (strengthened) a read must not change the flow data it reads from: the data after the read is compared bit for bit with the data before it,
+                    # BEFORE the model is brought in line with the data (a read that converted units in place / wrote back was adopted into the model otherwise)
+                    now1 = dense_of(st.imol); now2 = dense_of(ms.imol)
+                    oks = rec.check(same(now1, pre1, rel=0) and same(now2, pre2, rel=0), 'unit-access' if what.startswith('get_') else 'vol', f'{what}/source-untouched',
+                                    f'the read {what} with key {key!r} changed the flow data it reads: single-phase {pre1.tolist()} -> {now1.tolist()}; multi-phase {pre2.tolist()} -> {now2.tolist()}')
+                    if judged_read: rec.hit('flows:read-source-untouched')
+                    # the model follows the data as it was BEFORE the read (the writes that produced it were judged to 1e-11), never what a read left behind
+                    D1[:] = pre1
+                    if not oks: D1[:] = now1; D2[:] = now2          # reported above; later operations are judged on what is there now
+                else:
+                    D1[:] = dense_of(st.imol)          # writes: judged to 1e-11 above; keep the model bit-identical to the data for the exact clauses that follow
                 e = sparse_invariant(st.imol.data)
                 rec.check(e is None, 'invariant', 'flows', f'sparse invariant after {what}: {e}')
                 p_chem.look(); p_mat.look()
@@ -996,24 +1080,31 @@ def _run_case(case, rec, cleanup):
             for _ in range(op['n']):
                 good = gen_key(rng, S); bad = 'no_such_chemical_' + str(rng.randrange(50))
                 badph = rng.choice([q for q in 'xyzq' if q not in mphases])
-                form = rng.choice(['S-name', 'S-tuple', 'M-name', 'M-phase-name', 'M-bad-phase', 'M-bad-phase-only', 'S-write', 'chemicals.index'])
+                form = rng.choice(BAD_KEY_FORMS)
                 plain = [good] if isinstance(good, str) else [i for i in good]
                 if good == '...': plain = [ids[0]]
                 snap1 = dense_of(st.imol); snap2 = dense_of(ms.imol)
                 try:
-                    if form == 'S-name': st.imol[bad]
-                    elif form == 'S-tuple': st.imol[tuple(plain + [bad])]
-                    elif form == 'M-name': ms.imol[bad]
-                    elif form == 'M-phase-name': ms.imol[rng.choice(mphases), tuple([bad] + plain)]
-                    elif form == 'M-bad-phase': ms.imol[badph, to_key(good)]
-                    elif form == 'M-bad-phase-only': ms.imol[badph]
+                    answer = None
+                    if form == 'S-name': answer = st.imol[bad]
+                    elif form == 'S-tuple': answer = st.imol[tuple(plain + [bad])]
+                    elif form == 'M-name': answer = ms.imol[bad]
+                    elif form == 'M-phase-name': answer = ms.imol[rng.choice(mphases), tuple([bad] + plain)]
+                    elif form == 'M-bad-phase': answer = ms.imol[badph, to_key(good)]
+                    elif form == 'M-bad-phase-only': answer = ms.imol[badph]
                     elif form == 'S-write': st.imol[tuple(plain + [bad])] = 1.0
-                    else: S.chems.index(bad)
-                    rec.refuse(f'undefined key accepted without error ({form}; not judged)')
-                except (UndefinedChemicalAlias, UndefinedPhase):
-                    rec.hit('bad-key')
+                    else: answer = S.chems.index(bad)
+                except BAD_KEY_DOCUMENTED[form] as e:
+                    rec.check(True, 'bad-key', f'accepted/{form}', '')
+                    rec.hit('bad-key'); rec.hit('bad-key:' + form); rec.hit(f'bad-key:{form}:{type(e).__name__}')
                 except Exception as e:
-                    rec.refuse(f'undefined key rejected through {type(e).__name__} ({form}; not judged)')
+                    # (strengthened) only the documented exception of this key form is a refusal; anything else is reported
+                    rec.check(False, 'bad-key', f'wrong-exception/{form}', f'the undefined key of form {form} (name {bad!r} / phase {badph!r} next to {plain}) raised {type(e).__name__} ({str(e)[:120]}) '
+                              f'instead of {" / ".join(t_.__name__ for t_ in BAD_KEY_DOCUMENTED[form])}', detail={'exception': f'{type(e).__name__}: {str(e)[:300]}', 'at': exc_key(e)})
+                else:
+                    # (strengthened) an undefined name / phase that is answered (from a cached or default position) or silently dropped by a write is a violation
+                    rec.check(False, 'bad-key', f'accepted/{form}', f'the undefined key of form {form} (name {bad!r} / phase {badph!r} next to {plain}, phases {mphases}) was accepted without an error'
+                              + (f' and answered {show(answer)}' if form != 'S-write' else ' (the write returned normally)'))
                 # nothing was written, nothing was cached: the same valid keys still resolve
                 rec.check(same(dense_of(st.imol), snap1, rel=0) and same(dense_of(ms.imol), snap2, rel=0), 'bad-key:then-read', 'data-untouched', f'a rejected lookup ({form}) changed the flow data')
                 if check_read_single(good, False, 'bad-key:then-read') and check_read_multi(good, False, 'phase', rng.choice(phase_forms(rng.choice(mphases))), 'bad-key:then-read'): pass
@@ -1057,6 +1148,7 @@ def _run_case(case, rec, cleanup):
                     else: defs.append(('extended', list(ids) + [rng.choice([i for i in POOL if i not in ids])]))
                     for kind_, wids in defs:
                         w_ = Setup(wids, gen_world_groups(rng, wids, gnames))
+                        w_.check_own_aliases(rec, kind_)
                         cleanup.append(lambda c_=w_.chems: release(c_))
                         worlds.append(World.fresh(kind_, w_, mphases, phases2, rng))
                     sib['P2'] = World.second_stream(S, phases2, rng)
